@@ -11,6 +11,7 @@ from vf import core
 
 META = {
     'property_id': 'C13',
+    'confirm_by_replay': True,   # bin/check re-executes the stimulus of every violation before it is reported
     'level': 'model_checking',
     'technique': 'TLA+ spec (GroupSub.tla) checked exhaustively by TLC; every transition of a bounded instance plus '
                  'simulated deeper behaviours plus the counterexamples of the historically defective clean-up are '
